@@ -978,7 +978,8 @@ def sec_stateful(ck, e, T, rng):
 
 def rand_part(e, rng, kind):
     """A chain part of the given kind: (argument for ChainTransform / compose, independent reference function
-    on (N,3) points, JSON description).  Kinds: none, array (4x4), affine (one of the six classes), polyaffine,
+    on (N,3) points, JSON description).  Kinds: none, array (4x4), affine (one of the six classes), zeroparam
+    (all-zero `param` but not necessarily the identity), polyaffine,
     callable (generic Transform around a non-linear, non-commuting map of bounded growth)."""
     from nipy.algorithms.registration.transform import Transform
     from nipy.algorithms.registration.polyaffine import PolyAffine
@@ -993,6 +994,34 @@ def rand_part(e, rng, kind):
         a = make(e, rng, nm, "any")
         M = a.as_affine().copy()
         return a, (lambda q, M=M: apply_affine(M, q)), {"class": nm, "vec12": a._vec12.tolist(), "direct": bool(a.is_direct)}
+    if kind == "zeroparam":
+        # border class: the free-parameter vector `param` is all zero, yet the transform is not (necessarily) the
+        # identity - a reflection that lives only in the `_direct` flag (point reflection -I), or a transform of a
+        # restricted class whose 12-vector carries content only outside the class's own parameter slots; plus the
+        # true identity.  Given as an object of any class or (for the reflection / identity) as a 4x4 array.
+        how = str(rng.choice(["point-reflection-object", "point-reflection-array", "foreign-slots", "foreign-slots",
+                              "identity-object"]))
+        nm = str(rng.choice(CLASSES))
+        if how == "point-reflection-array":
+            M = np.diag([-1.0, -1.0, -1.0, 1.0])
+            return M.copy(), (lambda q, M=M: apply_affine(M, q)), {"array": M.tolist(), "how": how}
+        if how == "point-reflection-object":
+            a = e.cls[nm](np.diag([-1.0, -1.0, -1.0, 1.0]))
+        elif how == "identity-object":
+            a = e.cls[nm]()
+        else:
+            nm = str(rng.choice([c for c in CLASSES if c != "Affine"]))
+            full = make(e, rng, "Affine", "any")
+            v = np.array(full._vec12, dtype=float)
+            own = set(e.cls[nm].param_inds) | ({6, 7, 8} if nm.startswith("Similarity") else set())
+            for k in own:
+                v[k] = 0.0
+            a = e.cls[nm](v)
+            if not full.is_direct:
+                reflect(a)
+        M = a.as_affine().copy()
+        return a, (lambda q, M=M: apply_affine(M, q)), {"class": nm, "vec12": a._vec12.tolist(), "direct": bool(a.is_direct),
+                                                       "param": np.asarray(a.param).tolist(), "how": how}
     if kind == "polyaffine":
         nc = int(rng.integers(1, 4))
         centers = rng.uniform(-10, 10, (nc, 3))
@@ -1023,7 +1052,7 @@ def rand_part(e, rng, kind):
     raise ValueError(kind)
 
 
-PART_KINDS = ["none", "array", "affine", "polyaffine", "callable"]
+PART_KINDS = ["none", "array", "affine", "zeroparam", "polyaffine", "callable"]
 
 
 def sec_chain_mixed(ck, e, rng):
